@@ -89,6 +89,18 @@ theorem c06_encode_refs (s : St) (hf : SpaceInv s.f s.imports .F) (hg : SpaceInv
     ∨ (∃ s' why, encode s = (s', Ret.panic why) ∧ ∃ r ∈ allRefs s, Dangling s r) :=
   encode_spec s hf hg hm
 
+/-- **a reported id is new.** With stored ids equal to positions (`IdsFresh`, a clause of the state invariant of every state reached
+    from a parsed module before an encode), the id reported for an added function - the length of the vector - is held by no entity of
+    the space, live or deleted (the `edit` family judges this on the crate: signature `F-returned-id-already-in-use`). -/
+theorem c06_reported_id_is_new (s : St) (hf : IdsFresh s.f.items) (it : Item) (hit : it ∈ s.f.items) :
+    it.id ≠ s.f.items.length := by
+  obtain ⟨i, hi⟩ := List.mem_iff_getElem?.mp hit
+  have hid := hf i it hi
+  have hlt : i < s.f.items.length := by
+    rcases List.getElem?_eq_some_iff.mp hi with ⟨h, _⟩
+    exact h
+  omega
+
 /-- the ids reported by the function additions are the positions the functions are stored at -/
 theorem c06_added_function_ids (s : St) (uid : Nat) (sites : List Ref) :
     (addImportFunc s uid).2 = Ret.id2 s.f.items.length s.imports.length
